@@ -4,7 +4,10 @@ Executed for real (pymoto/modules/filter.py): OverhangFilter._prepare (direction
 OverhangFilter._response (layer sweep with support masks), through the public constructor / response().
 
 Work item families (cfg["kind"]):
-  string-crosshair  (a) direction STRINGS, solver part: CrossHair (z3 back end) drives _prepare on an object made
+  string-symx       (a) direction STRINGS of unbounded length: the public constructor runs on a symbolic `str` subclass
+                    (symx/symstr.py) whose membership tests are z3 string-theory atoms (`Contains`, lower-casing through
+                    Python's own Unicode tables); every path is compared with the clause; witnesses are concrete strings.
+  string-crosshair  (a) direction STRINGS, second solver: CrossHair (z3 back end) drives _prepare on an object made
                     with object.__new__ and searches all str with len <= 3 (any characters) for a violation of
                     "ValueError, or the unit vector of the named axis, negative iff the string contains '-'".
                     A printed counterexample is replayed on the real code; "Confirmed over all paths" discharges;
@@ -685,7 +688,58 @@ def sc_equivariance(V, P, cfg):
     return dict(y1=y1, y2=y2)
 
 
-SCEN = {"string-enum": sc_string_enum, "vector": sc_vector, "vector-enum": sc_vector_enum, "forward": sc_forward,
+def _decode_z3_string(t):
+    """z3 prints non-ASCII code points as \\u{...}."""
+    return re.sub(r"\\u\{([0-9a-fA-F]+)\}", lambda m: chr(int(m.group(1), 16)), t)
+
+
+def sc_string_symx(V, P, cfg):
+    """(a) direction strings of UNBOUNDED length: the real constructor runs on a symbolic str whose membership tests
+    ('x' in s.lower(), '-' in s) are z3 string-theory atoms; each of the resulting paths is compared with the clause
+    'ValueError unless exactly one axis is named, else the unit vector of that axis, negative iff the string contains -'."""
+    import pymoto as pym
+    import z3
+    dim = cfg["dim"]
+    dom = _dom(dim)
+    if not V.symbolic:
+        sv = V.env.get("dirstr", {"str": "y"})
+        sval = _decode_z3_string(sv["str"] if isinstance(sv, dict) else str(sv))
+        v = string_verdict(sval, dim)
+        LAST["string_symx"] = dict(direction=sval, verdict=v, parsed=parse_public(sval, dim), expected=expected_from_string(sval))
+        return dict(ok=float(v is None))
+    from symx.symstr import symstr, contains_term
+    s = symstr("dirstr")
+    named = [contains_term(s.t, a, True) for a in "xyz"]          # independent reference atoms (z3 terms)
+    minus = contains_term(s.t, "-", False)
+    exactly = [z3.And(named[i], *[z3.Not(named[j]) for j in range(3) if j != i]) for i in range(3)]
+    one_axis = z3.Or(*exactly)
+    try:
+        m = pym.OverhangFilter(pym.Signal("x", np.zeros(dom.nel)), domain=dom, direction=s)
+        outcome = ("ok", [float(v) for v in m.direction])
+    except ValueError as e:
+        outcome = ("ValueError", str(e)[:60])
+    except AssertionError as e:
+        outcome = ("AssertionError", str(e)[:60])
+    if outcome[0] == "ValueError":
+        P.holds("rejected => the string does not name exactly one axis", SB(z3.Not(one_axis)), kind="direction-string-unbounded")
+    elif outcome[0] == "AssertionError":
+        # by design only for the z axis on a 2-D domain
+        P.holds("assertion => z axis named on a 2-D domain", SB(exactly[2]) if dim == 2 else False, kind="direction-string-unbounded")
+    else:
+        d = outcome[1]
+        conds = []
+        for i in range(3):
+            for sg, mc in ((1.0, z3.Not(minus)), (-1.0, minus)):
+                e = [0.0, 0.0, 0.0]
+                e[i] = sg
+                if d == e:
+                    conds.append(z3.And(exactly[i], mc))
+        P.holds("accepted => unit vector of the one named axis, negative iff '-' occurs",
+                SB(z3.Or(*conds)) if conds else False, kind="direction-string-unbounded")
+    return dict(ok=1.0)
+
+
+SCEN = {"string-symx": sc_string_symx, "string-enum": sc_string_enum, "vector": sc_vector, "vector-enum": sc_vector_enum, "forward": sc_forward,
         "equivariance": sc_equivariance}
 
 
@@ -701,7 +755,11 @@ def _dtag(axis, sign):
 def items(tier):
     q = tier == "quick"
     out = []
-    out.append(dict(kind="string-crosshair", id="string-crosshair-len3", func="direction_string_ok_len3", timeout_s=30, timeout=400))
+    for dim in (3, 2):
+        out.append(dict(kind="string-symx", id="string-symx-unbounded-%dd" % dim, dim=dim))
+    if not q:    # refutation search only ("Not confirmed" is all CrossHair can say within the budget); the unbounded
+        # string-symx items above decide the clause, so the quick tier does not carry a permanently inconclusive line
+        out.append(dict(kind="string-crosshair", id="string-crosshair-len3", func="direction_string_ok_len3", timeout_s=30, timeout=400))
     out.append(dict(kind="string-crosshair", id="string-crosshair-len1", func="direction_string_ok_len1", timeout_s=250, timeout=900))
     out.append(dict(kind="string-crosshair", id="string-crosshair-twin", func="twin_parser_rejects_everything", timeout_s=30,
                     twin=True, timeout=400))
@@ -766,6 +824,11 @@ def replay(cfg, label, env, case):
                     detail=dict(direction=s, observed=v, parsed=parse_public(s, dim),
                                 expected=expected_from_string(s), n_failing_strings_len_le_3_over_alphabet=len(bad),
                                 failing_strings=bad))
+    if kind == "string-symx":
+        LAST.clear()
+        SCEN[kind](Vals(env=env), None, cfg)
+        r = LAST.get("string_symx", {})
+        return dict(reproduced=r.get("verdict") is not None, detail=r)
     V = Vals(env=env)
     LAST.clear()
     inputs = lambda: {k: env[k] for k in V.requested if k in env}
